@@ -15,7 +15,8 @@
    (identity cache, temporary certificate files, the metadata store) is consulted by the signature
    checks of a later one, so the model of a sequence is the map of the model of one message
    (sp_run); the correspondence check runs real sequences on one Saml2Client to validate that. *)
-From Coq Require Import Bool List.
+From Coq Require Import Bool String List.
+From Verif Require Base.Str.
 From VerifGen Require Import C01Tables.
 Import ListNotations.
 
@@ -296,3 +297,122 @@ Definition msg_of (x : input) : msg :=
   {| r_who := WIdp; a_who := WIdp; m_rs := sgn_of (rs x); m_as := sgn_of (as_ x); m_enc := enc x; m_bind := binding x |}.
 
 Definition parse_response (x : input) : bool := parse_message (config_of x) (msg_of x).
+
+(* ---- how the options reach the client (round 4) ------------------------------------------------------
+   The configuration object keeps the options of a service section under "_<context>_<name>"
+   (Config.setattr; for the context "" under the bare name) and has a CURRENT context (Config.context:
+   def_context of its class after load — "sp" for SPConfig, "idp" for IdPConfig, "" for Config —, the type
+   given to config_factory, or whatever the application assigned afterwards).
+   Config.getattr(name, context=None) reads under the given context, under the current one when none is
+   given.  Base.__init__ reads the three options with the context "sp", whatever object it was handed. *)
+Inductive octx := XSp | XIdp | XAa | XNo.                      (* "sp", "idp", "aa", "" *)
+Inductive oname := NWr | NWa | NWor.                           (* the three want_* options *)
+Inductive cclass := CSp | CIdp | CPlain.                       (* SPConfig, IdPConfig, Config *)
+Definition def_context (k : cclass) : octx := match k with CSp => XSp | CIdp => XIdp | CPlain => XNo end.
+
+(* how the Saml2Client comes by its configuration *)
+Inductive deliver :=
+  | DObject (k : cclass)     (* Saml2Client(config=K().load(dict)) *)
+  | DFactory (t : octx)      (* Saml2Client(config=config_factory(t, dict)): class by t, then conf.context = t *)
+  | DFile                    (* Saml2Client(config_file="<path of a module with CONFIG>"): config_factory("sp", path) *)
+  | DDict.                   (* Saml2Client(config_file=dict): config_factory("sp", dict) *)
+Definition loaded_ctx (d : deliver) : octx :=
+  match d with DObject k => def_context k | DFactory t => t | DFile | DDict => XSp end.
+
+(* an option as the deployer wrote it: a boolean or a text, in service/sp of the dict or through
+   conf.setattr("sp", name, value) on the loaded object *)
+Inductive pv := PB (b : bool) | PT (s : string).
+Inductive written :=
+  | WUnset                   (* not configured *)
+  | WDict (v : pv)           (* service/sp of the dict: name: value *)
+  | WSet (v : pv).           (* conf.setattr("sp", name, value) on the loaded object *)
+
+Record client := {
+  k_deliver : deliver;
+  k_assigned : option octx;  (* conf.context = ... assigned by the application before the client is built *)
+  k_proxy : bool;            (* the dict has a service/idp section as well (an entity that is IdP and SP) *)
+  k_wr : written;            (* want_response_signed *)
+  k_wa : written;            (* want_assertions_signed *)
+  k_wor : written;           (* want_assertions_or_response_signed *)
+  k_only : optv              (* only_use_keys_in_metadata (top level of the dict) *)
+}.
+Definition current_ctx (k : client) : octx :=
+  match k_assigned k with Some x => x | None => loaded_ctx (k_deliver k) end.
+
+(* what the configuration object stores: no such attribute (getattr -> None), a boolean, a str *)
+Inductive sval := SNone | SBool (b : bool) | SText (s : string).
+(* the configuration object: context -> option name -> stored value *)
+Definition cobj := octx -> oname -> sval.
+Definition octx_eqb (a b : octx) : bool :=
+  match a, b with XSp, XSp | XIdp, XIdp | XAa, XAa | XNo, XNo => true | _, _ => false end.
+Definition oname_eqb (a b : oname) : bool :=
+  match a, b with NWr, NWr | NWa, NWa | NWor, NWor => true | _, _ => false end.
+Definition obj_setattr (o : cobj) (x : octx) (n : oname) (v : sval) : cobj :=
+  fun x' n' => if octx_eqb x x' && oname_eqb n n' then v else o x' n'.
+Definition obj_getattr (o : cobj) (current : octx) (context : option octx) (n : oname) : sval :=
+  o (match context with None => current | Some x => x end) n.
+
+(* Config.load_special(cnf["service"]["sp"], "sp"): exactly "true" -> True, exactly "false" -> False, any
+   other value as it is, then setattr("sp", ..); the application's own Config.setattr("sp", ..) stores the
+   value as it is.  The want_* names are no arguments of any other section (SPEC["idp"], SPEC["aa"]) nor of
+   the top level (COMMON_ARGS). *)
+Definition stored (w : written) : sval :=
+  match w with
+  | WUnset => SNone
+  | WDict (PB b) | WSet (PB b) => SBool b
+  | WDict (PT s) => if String.eqb s "true" then SBool true else if String.eqb s "false" then SBool false else SText s
+  | WSet (PT s) => SText s
+  end.
+Definition put (n : oname) (w : written) (o : cobj) : cobj :=
+  match w with WUnset => o | _ => obj_setattr o XSp n (stored w) end.
+Definition config_object (k : client) : cobj :=
+  put NWor (k_wor k) (put NWa (k_wa k) (put NWr (k_wr k) (fun _ _ => SNone))).
+
+(* Base.__init__ as it reads NOW (fix 6bdc97cd): a str is stripped and lower-cased (ASCII texts only are
+   modelled); true / yes / on / 1 -> True, false / no / off / 0 / "" -> False, anything else raises SAMLError:
+   the client is not built *)
+Definition read_word (s : string) : option bool :=
+  let w := Str.lower (Str.strip s) in
+  if existsb (String.eqb w) ["true"; "yes"; "on"; "1"]%string then Some true
+  else if existsb (String.eqb w) ["false"; "no"; "off"; "0"; ""]%string then Some false
+  else None.
+(* the stored value as one of the configured option values below (None: SAMLError) *)
+Definition as_optv (v : sval) : option optv :=
+  match v with
+  | SNone => Some Unset
+  | SBool b => Some (B b)
+  | SText s => match read_word s with Some b => Some (B b) | None => None end
+  end.
+
+(* Base.__init__: val_config = self.config.getattr(attr, "sp"); None: the constructor raises *)
+Definition read_config (k : client) : option config :=
+  let g := obj_getattr (config_object k) (current_ctx k) (Some XSp) in
+  match as_optv (g NWr), as_optv (g NWa), as_optv (g NWor) with
+  | Some a, Some b, Some c => Some {| c_wr := a; c_wa := b; c_wor := c; c_only := k_only k |}
+  | _, _, _ => None
+  end.
+
+(* no client, no identity *)
+Definition client_run (k : client) (ms : list msg) : list bool :=
+  match read_config k with Some c => sp_run c ms | None => map (fun _ => false) ms end.
+
+(* ---- the reading before fix 6bdc97cd, kept for the record: `if val == "true": val = True`, any other str
+   stayed a str and counted by its truth value (non-empty = True): "False", "no", "0" demanded a signature,
+   no text was ever refused *)
+Definition as_optv_v0 (v : sval) : optv :=
+  match v with
+  | SNone => Unset
+  | SBool b => B b
+  | SText s => if String.eqb s "true" then StrTrue else B (negb (String.eqb s ""))
+  end.
+Definition read_config_v0 (k : client) : config :=
+  let g := obj_getattr (config_object k) (current_ctx k) (Some XSp) in
+  {| c_wr := as_optv_v0 (g NWr); c_wa := as_optv_v0 (g NWa); c_wor := as_optv_v0 (g NWor); c_only := k_only k |}.
+Definition client_run_v0 (k : client) (ms : list msg) : list bool := sp_run (read_config_v0 k) ms.
+
+(* the clients of the earlier rounds: SPConfig loaded from a dict that spells the options as given *)
+Definition to_written (v : optv) : written :=
+  match v with Unset => WUnset | B b => WDict (PB b) | StrTrue => WDict (PT "true") end.
+Definition client_of (c : config) : client :=
+  {| k_deliver := DObject CSp; k_assigned := None; k_proxy := false;
+     k_wr := to_written (c_wr c); k_wa := to_written (c_wa c); k_wor := to_written (c_wor c); k_only := c_only c |}.
